@@ -121,11 +121,16 @@ class Engine:
         self.solver_time += time.perf_counter() - t
         return r
 
-    def choose(self, options, payload=None):
+    def choose(self, options, payload=None, fp=None):
         """options: list of z3 constraints (need not be exclusive).  Returns the
         index explored on this run; every feasible one is explored on some run."""
         if self.pos < _len(self.decisions):
             d = self.decisions[self.pos]
+            i = d[0][d[1]]
+            # the re-execution must reach the same decision: a differing condition means the code
+            # under test (or the harness) is not deterministic, and the recorded feasibility is void
+            if _len(d) > 3 and (i >= _len(options) or (fp if fp is not None else [o.hash() for o in options])[i] != d[3][i]):
+                raise Inconclusive("non-deterministic re-execution: decision %d differs from the recorded one" % self.pos)
         else:
             if self.pos >= self.max_decisions:
                 raise Inconclusive("unwinding bound: more than %d decisions on a path" % self.max_decisions)
@@ -138,7 +143,7 @@ class Engine:
                     feas.append(i)
             if not feas:
                 raise Infeasible()
-            d = [feas, 0, payload]
+            d = [feas, 0, payload, fp if fp is not None else [o.hash() for o in options]]
             self.decisions.append(d)
         i = d[0][d[1]]
         self.solver.add(options[i])
@@ -150,12 +155,16 @@ class Engine:
         if self.pos < _len(self.decisions):
             d = self.decisions[self.pos]
             i = d[0][d[1]]
-            self.solver.add(make(i))
+            c = make(i)
+            if _len(d) > 3 and (i >= _len(d[3]) or c.hash() != d[3][i]):
+                raise Inconclusive("non-deterministic re-execution: decision %d differs from the recorded one" % self.pos)
+            self.solver.add(c)
             self.pos += 1
             return i
         return self.choose([make(i) for i in _range(n)])
 
     def branch(self, cond):
+        raw = cond.hash()  # fingerprint of the term as built (simplify's argument order is not stable)
         cond = z3.simplify(cond)
         if z3.is_true(cond):
             return True
@@ -164,7 +173,7 @@ class Engine:
         cid = cond.get_id()
         if cid in self.known:  # the same condition was already decided on this path
             return self.known[cid][1]
-        r = self.choose([cond, z3.Not(cond)]) == 0
+        r = self.choose([cond, z3.Not(cond)], fp=[raw, raw + 1]) == 0
         self.known[cid] = (cond, r)
         return r
 
